@@ -770,6 +770,18 @@ pub fn corner_extras() -> Vec<SysSpec> {
         sp.outputs = vec![("en_o".into(), f()), ("data_o".into(), bb()), ("sum_o".into(), b(Bin::Add, a(), bb()))];
         out.push(sp);
     }
+    // deep counterexamples: two-digit step numbers (names `x@10`, frame numbers, loop bounds)
+    {
+        let a4 = || s("a4", 4);
+        out.push(mk("X-deep", vec![], vec![st("a4", 4, Some(l(4, 0)), Some(b(Bin::Add, a4(), l(4, 1))))], vec![b(Bin::Eq, a4(), l(4, 11))], vec![]));
+        out.push(mk(
+            "X-deep",
+            vec![("b1", 1)],
+            vec![st("a4", 4, Some(l(4, 0)), Some(b(Bin::Add, a4(), T::ZExt(3, Box::new(f())))))],
+            vec![b(Bin::And, b(Bin::Eq, a4(), l(4, 10)), f())],
+            vec![b(Bin::Implies, b(Bin::Ugt, l(4, 4), a4()), f())],
+        ));
+    }
     // a bad state that is at once a constraint root; a bad state that is a bare state symbol of width 1
     out.push(mk("X-rootshare", vec![("b1", 1)], vec![st("a1", 1, Some(l(1, 0)), Some(b(Bin::Or, e(), f())))], vec![e(), b(Bin::And, e(), f())], vec![T::not(b(Bin::And, e(), f()))]));
     out
